@@ -29,8 +29,18 @@ def events_of(run, f):
     """ordered stage events of a function body: (kind, line, text, diag vars)"""
     ev = []
 
+    spliced = set()
+
     def visit_block(blk, depth):
         for st in blk["stmts"]:
+            # a phase that was carved out into a private helper and is read in place (second reading of an orchestrator): its statements
+            # are statements of this block
+            for sub in S.walk(st):
+                if sub["k"] == "Block" and sub.get("inlined") and id(sub) not in spliced:
+                    for x in S.walk(sub):
+                        if x["k"] == "Block" and x.get("inlined"):
+                            spliced.add(id(x))
+                    visit_block(sub, depth + 1)
             # gates
             if st["k"] == "ExprStmt" and st["expr"]["k"] == "If":
                 iff = st["expr"]
